@@ -202,11 +202,64 @@ Qed.
 Lemma extract_bytes_kind s k : extract_bytes [AStr s] = Some k -> is_tmpl_name s = false -> exists b, k = KBytes b.
 Proof.
   unfold extract_bytes. intros H Ht. rewrite Ht in H.
-  repeat match type of H with
-         | (if ?c then _ else _) = _ => destruct c
-         | match ?x with Some _ => _ | None => _ end = _ => destruct x; [|discriminate H]
-         | option_map KBytes ?x = _ => destruct x; [|discriminate H]
-         end; try discriminate H; cbn in H; injection H as <-; eauto.
+  assert (G : forall x : option bytes, option_map KBytes x = Some k -> exists b, k = KBytes b).
+  { intros [b|] E; [|discriminate E]. injection E as <-. eauto. }
+  destruct (_ && _) in H; [eapply G; exact H|].
+  destruct (String.prefix "0x" s) in H; [eapply G; exact H|].
+  destruct (_ && _) in H.
+  { destruct (correct_b32_padding _) in H; [eapply G; exact H|discriminate H]. }
+  destruct (_ && _) in H; [eapply G; exact H|discriminate H].
+Qed.
+
+Lemma denote_int_tok a r tk : is_comment_arg a = false -> arg_token a = Some tk ->
+  denote (mkI O_int (a :: r)) <> None -> denote (mkI O_int (a :: r)) = option_map SVInt (parse_int_arg tk).
+Proof.
+  intros Hc Ht. unfold ConstantsSpec.denote, ConstantsSpec.parsed_of. cbn [i_op i_args ConstantsSpec.arg_tokens].
+  rewrite Hc, Ht. destruct (arg_tokens r) as [[|x y]|]; cbn -[parse_int_arg]; try congruence.
+  intros _. destruct (parse_int_arg tk); reflexivity.
+Qed.
+
+Lemma denote_byte_tok s : String.eqb s "//" = false ->
+  denote (mkI O_byte [AStr s]) =
+  match parse_bytes_arg [subst_tok sigma s] with Some (b, []) => Some (SVBytes b) | _ => None end.
+Proof.
+  intros Hc. unfold ConstantsSpec.denote, ConstantsSpec.parsed_of.
+  cbn [i_op i_args ConstantsSpec.arg_tokens is_comment_arg ConstantsSpec.arg_token]. rewrite Hc.
+  cbn -[parse_bytes_arg].
+  destruct (parse_bytes_arg [subst_tok sigma s]) as [[b [|x y]]|]; reflexivity.
+Qed.
+
+Lemma denote_addr_tok s : is_tmpl_name s = false -> String.eqb s "//" = false ->
+  denote (mkI O_addr [AStr s]) =
+  if (String.length s =? 58)%nat then option_map (fun d => SVBytes (firstn 32 d)) (decode_base32 s) else None.
+Proof.
+  intros Ht Hc. unfold ConstantsSpec.denote, ConstantsSpec.parsed_of.
+  cbn [i_op i_args ConstantsSpec.arg_tokens is_comment_arg ConstantsSpec.arg_token]. rewrite Hc. unfold subst_tok. rewrite Ht.
+  cbn -[decode_base32 Nat.eqb String.length firstn].
+  destruct (String.length s =? 58)%nat; [|reflexivity].
+  destruct (decode_base32 s); reflexivity.
+Qed.
+
+Lemma denote_method_tok s : is_tmpl_name s = false -> String.eqb s "//" = false ->
+  denote (mkI O_method_signature [AStr s]) =
+  match parse_string_literal s with
+  | Some sg => option_map SVBytes (alookup String.eqb (string_of_bytes sg) msel)
+  | None => None
+  end.
+Proof.
+  intros Ht Hc. unfold ConstantsSpec.denote, ConstantsSpec.parsed_of.
+  cbn [i_op i_args ConstantsSpec.arg_tokens is_comment_arg ConstantsSpec.arg_token]. rewrite Hc. unfold subst_tok. rewrite Ht.
+  cbn -[parse_string_literal alookup].
+  destruct (parse_string_literal s) as [sg|]; [|reflexivity].
+  destruct (alookup String.eqb (string_of_bytes sg) msel); reflexivity.
+Qed.
+
+Lemma comment_arg_denotes_nothing o s r : String.eqb s "//" = true ->
+  const_kind o <> CKNone -> denote (mkI o (AStr s :: r)) = None.
+Proof.
+  intros Hc Hk. unfold ConstantsSpec.denote, ConstantsSpec.parsed_of.
+  cbn [i_op i_args ConstantsSpec.arg_tokens is_comment_arg]. rewrite Hc.
+  destruct o; try (exfalso; apply Hk; reflexivity); reflexivity.
 Qed.
 
 Lemma site_key_value i k v :
@@ -219,52 +272,50 @@ Proof.
   cbn [i_op i_args].
   destruct o; cbn [const_kind]; try discriminate; intros _ Hex Hden Hna Hpm.
   - (* int *)
-    destruct args as [|a [|a2 r]]; try discriminate Hex. destruct a as [n|s| | |]; try discriminate Hex.
-    + cbn in Hex. injection Hex as <-. exact Hden.
+    destruct args as [|a t]; [cbn in Hex; discriminate Hex|]. destruct a as [n|s|l|sl|sb]; destruct t as [|a2 r]; try (cbn in Hex; discriminate Hex).
+    + cbn in Hex. injection Hex as <-.
+      rewrite (denote_int_tok (AInt n) [] (N_to_dec n)) in Hden by (reflexivity || congruence). exact Hden.
     + cbn [extract_int] in Hex. destruct (is_tmpl_name s) eqn:Ht.
-      * injection Hex as <-. exact Hden.
+      * injection Hex as <-.
+        rewrite (denote_int_tok (AStr s) [] (subst_tok sigma s)) in Hden
+          by (try reflexivity; try congruence; cbn; now apply tmpl_not_comment).
+        exact Hden.
       * destruct (assoc_str s int_enum_values) as [n|] eqn:Hn; [|discriminate Hex]. injection Hex as <-.
         destruct (int_enum_agrees _ _ Hn) as [P1 P2].
-        unfold ConstantsSpec.denote, ConstantsSpec.parsed_of in Hden. cbn [i_op i_args ConstantsSpec.arg_tokens is_comment_arg] in Hden.
         destruct (String.eqb s "//") eqn:Ec.
         { apply String.eqb_eq in Ec. subst s. discriminate Hn. }
-        cbn [ConstantsSpec.arg_token] in Hden. unfold subst_tok in Hden. rewrite Ht in Hden.
-        cbn -[parse_int_arg] in Hden. rewrite P1 in Hden. cbn in Hden. injection Hden as <-.
+        rewrite (denote_int_tok (AStr s) [] s) in Hden
+          by (try congruence; cbn; try exact Ec; unfold subst_tok; now rewrite Ht).
+        rewrite P1 in Hden. cbn in Hden. injection Hden as <-.
         unfold key_sval. cbn [int_key_arg ConstantsSpec.arg_token]. now rewrite P2.
   - (* byte *)
-    destruct args as [|a [|a2 r]]; try discriminate Hex. destruct a as [n|s| | |]; try discriminate Hex.
-    unfold ConstantsSpec.denote, ConstantsSpec.parsed_of in Hden. cbn [i_op i_args ConstantsSpec.arg_tokens is_comment_arg] in Hden.
+    destruct args as [|a t]; [cbn in Hex; discriminate Hex|]. destruct a as [n|s|l|sl|sb]; destruct t as [|a2 r]; try (cbn in Hex; discriminate Hex).
     destruct (String.eqb s "//") eqn:Ec.
     { apply String.eqb_eq in Ec. subst s. discriminate Hex. }
-    cbn [ConstantsSpec.arg_token] in Hden.
+    rewrite (denote_byte_tok s Ec) in Hden.
     destruct (is_tmpl_name s) eqn:Ht.
     + unfold extract_bytes in Hex. rewrite Ht in Hex. injection Hex as <-.
-      unfold key_sval. cbn [bytes_key_arg ConstantsSpec.arg_token].
-      cbn -[parse_bytes_arg] in Hden.
-      destruct (parse_bytes_arg [subst_tok sigma s]) as [[b [|x y]]|]; try discriminate Hden.
-      cbn in Hden. exact Hden.
+      unfold key_sval. cbn [bytes_key_arg ConstantsSpec.arg_token]. exact Hden.
     + destruct (extract_bytes_kind _ _ Hex Ht) as [b ->].
-      unfold subst_tok in Hden. rewrite Ht in Hden. cbn -[parse_bytes_arg] in Hden.
+      unfold subst_tok in Hden. rewrite Ht in Hden.
       destruct (parse_bytes_arg [s]) as [[b' [|x y]]|] eqn:Hp; try discriminate Hden.
-      cbn in Hden. injection Hden as <-.
+      injection Hden as <-.
       rewrite (extract_bytes_agrees _ _ _ _ Hex Hp). apply key_sval_bytes.
   - (* addr *)
-    destruct args as [|a [|a2 r]]; try discriminate Hex. destruct a as [n|s| | |]; try discriminate Hex.
+    destruct args as [|a t]; [cbn in Hex; discriminate Hex|]. destruct a as [n|s|l|sl|sb]; destruct t as [|a2 r]; try (cbn in Hex; discriminate Hex).
     cbn [extract_addr] in Hex. rewrite Hna in Hex.
-    unfold ConstantsSpec.denote, ConstantsSpec.parsed_of in Hden. cbn [i_op i_args ConstantsSpec.arg_tokens is_comment_arg] in Hden.
     destruct (String.eqb s "//") eqn:Ec.
-    { cbn in Hden. discriminate Hden. }
-    cbn [ConstantsSpec.arg_token] in Hden. unfold subst_tok in Hden. rewrite Hna in Hden.
-    cbn -[decode_base32 Nat.eqb String.length] in Hden.
-    destruct s as [|c s']; [cbn in Hden; discriminate Hden|].
+    { rewrite comment_arg_denotes_nothing in Hden by (assumption || discriminate). discriminate Hden. }
+    rewrite (denote_addr_tok s Hna Ec) in Hden.
+    destruct (String.length s =? 58)%nat eqn:Hl; [|discriminate Hden].
+    destruct (decode_base32 s) as [d|] eqn:Hd; [|discriminate Hden].
+    assert (Ev : v = SVBytes (firstn 32 d)) by (unfold option_map in Hden; congruence).
+    clear Hden. destruct s as [|c s']; [discriminate Hl|].
     destruct (decode_address addr_hash (los (String c s'))) as [key|] eqn:Hk; [|discriminate Hex].
     injection Hex as <-.
-    destruct (String.length (String c s') =? 58)%nat eqn:Hl; [|discriminate Hden].
-    destruct (decode_base32 (String c s')) as [d|] eqn:Hd; [|discriminate Hden].
-    cbn in Hden. injection Hden as <-.
-    rewrite (decode_address_agrees _ _ _ _ Hk Hl Hd). apply key_sval_bytes.
+    rewrite Ev, (decode_address_agrees _ _ _ _ Hk Hl Hd). apply key_sval_bytes.
   - (* method *)
-    destruct args as [|a [|a2 r]]; try discriminate Hex. destruct a as [n|s| | |]; try discriminate Hex.
+    destruct args as [|a t]; [cbn in Hex; discriminate Hex|]. destruct a as [n|s|l|sl|sb]; destruct t as [|a2 r]; try (cbn in Hex; discriminate Hex).
     assert (Hk : exists b, k = KBytes b).
     { unfold extract_method in Hex. destruct (los s) as [|q l]; [discriminate Hex|].
       destruct (_ && _); [|discriminate Hex]. injection Hex as <-. eauto. }
@@ -272,14 +323,176 @@ Proof.
     assert (Ht : is_tmpl_name s = false).
     { unfold extract_method in Hex. destruct s as [|q s']; [discriminate Hex|]. cbn [los] in Hex.
       destruct (Ascii.eqb q """") eqn:Eq; [|discriminate Hex]. apply Ascii.eqb_eq in Eq. subst q. reflexivity. }
-    unfold ConstantsSpec.denote, ConstantsSpec.parsed_of in Hden. cbn [i_op i_args ConstantsSpec.arg_tokens is_comment_arg] in Hden.
     destruct (String.eqb s "//") eqn:Ec.
-    { cbn in Hden. discriminate Hden. }
-    cbn [ConstantsSpec.arg_token] in Hden. unfold subst_tok in Hden. rewrite Ht in Hden.
-    cbn -[parse_string_literal alookup] in Hden.
+    { rewrite comment_arg_denotes_nothing in Hden by (assumption || discriminate). discriminate Hden. }
+    rewrite (denote_method_tok s Ht Ec) in Hden.
     destruct (parse_string_literal s) as [sg|] eqn:Hp; [|discriminate Hden].
     destruct (alookup String.eqb (string_of_bytes sg) msel) as [sel|] eqn:Hs; [|discriminate Hden].
     cbn in Hden. injection Hden as <-.
     rewrite (Hmsel _ _ Hs).
     rewrite <- (method_sig_agrees _ _ _ _ Hex Hpm Hp). apply key_sval_bytes.
+Qed.
+
+(* ---------------------------------------------------------------- the emitted lines read back *)
+Notation load_value := ConstantsSpec.load_value.
+
+Lemma nth_error_N_nat {A} (l : list A) idx : nth_error l (N.to_nat (N.of_nat idx)) = nth_error l idx.
+Proof. now rewrite Nat2N.id. Qed.
+
+Lemma parsed_long o n orig : (o = O_intc \/ o = O_bytec) ->
+  parsed_of (mkI o (AInt n :: cmt orig)) = Some (mkP o [IInt n]).
+Proof.
+  intros [-> | ->]; unfold ConstantsSpec.parsed_of, cmt;
+    cbn [i_op i_args ConstantsSpec.arg_tokens is_comment_arg ConstantsSpec.arg_token];
+    cbn -[generic_imm N_to_dec]; now rewrite generic_imm_to_dec.
+Qed.
+
+Lemma load_int_op ib bb idx orig n : nth_error ib idx = Some n ->
+  exists p', parsed_of (load_op O_intc_0 O_intc_1 O_intc_2 O_intc_3 O_intc idx orig) = Some p' /\
+             load_value ib bb p' = Some (SVInt n).
+Proof.
+  intros H. destruct idx as [|[|[|[|idx]]]]; cbn [load_op].
+  - exists (mkP O_intc_0 []). split; [reflexivity|]. unfold ConstantsSpec.load_value. cbn [p_op p_imms]. now rewrite H.
+  - exists (mkP O_intc_1 []). split; [reflexivity|]. unfold ConstantsSpec.load_value. cbn [p_op p_imms]. now rewrite H.
+  - exists (mkP O_intc_2 []). split; [reflexivity|]. unfold ConstantsSpec.load_value. cbn [p_op p_imms]. now rewrite H.
+  - exists (mkP O_intc_3 []). split; [reflexivity|]. unfold ConstantsSpec.load_value. cbn [p_op p_imms]. now rewrite H.
+  - exists (mkP O_intc [IInt (N.of_nat (S (S (S (S idx)))))]). split; [apply parsed_long; now left|].
+    unfold ConstantsSpec.load_value. cbn [p_op p_imms]. rewrite nth_error_N_nat, H. reflexivity.
+Qed.
+
+Lemma load_bytes_op ib bb idx orig b : nth_error bb idx = Some b ->
+  exists p', parsed_of (load_op O_bytec_0 O_bytec_1 O_bytec_2 O_bytec_3 O_bytec idx orig) = Some p' /\
+             load_value ib bb p' = Some (SVBytes b).
+Proof.
+  intros H. destruct idx as [|[|[|[|idx]]]]; cbn [load_op].
+  - exists (mkP O_bytec_0 []). split; [reflexivity|]. unfold ConstantsSpec.load_value. cbn [p_op p_imms]. now rewrite H.
+  - exists (mkP O_bytec_1 []). split; [reflexivity|]. unfold ConstantsSpec.load_value. cbn [p_op p_imms]. now rewrite H.
+  - exists (mkP O_bytec_2 []). split; [reflexivity|]. unfold ConstantsSpec.load_value. cbn [p_op p_imms]. now rewrite H.
+  - exists (mkP O_bytec_3 []). split; [reflexivity|]. unfold ConstantsSpec.load_value. cbn [p_op p_imms]. now rewrite H.
+  - exists (mkP O_bytec [IInt (N.of_nat (S (S (S (S idx)))))]). split; [apply parsed_long; now right|].
+    unfold ConstantsSpec.load_value. cbn [p_op p_imms]. rewrite nth_error_N_nat, H. reflexivity.
+Qed.
+
+(* a key that denotes something is never spelled as the comment marker *)
+Lemma key_sval_int_inv k v : key_sval CKInt k = Some v ->
+  exists t n, is_comment_arg (int_key_arg k) = false /\ arg_token (int_key_arg k) = Some t /\
+              parse_int_arg t = Some n /\ v = SVInt n.
+Proof.
+  unfold key_sval. destruct (arg_token (int_key_arg k)) as [t|] eqn:Ht; [|discriminate].
+  destruct (parse_int_arg t) as [n|] eqn:Hn; [|discriminate]. cbn. intros E; injection E as <-.
+  exists t, n. repeat split; try assumption.
+  destruct k as [m|b|s]; cbn in *; try reflexivity.
+  destruct (String.eqb s "//") eqn:Ec; [|reflexivity].
+  apply String.eqb_eq in Ec. subst s. injection Ht as <-. discriminate Hn.
+Qed.
+
+Lemma key_sval_bytes_inv k v : key_sval CKBytes k = Some v ->
+  exists t b, is_comment_arg (bytes_key_arg k) = false /\ arg_token (bytes_key_arg k) = Some t /\
+              parse_bytes_arg [t] = Some (b, []) /\ v = SVBytes b.
+Proof.
+  unfold key_sval. destruct (arg_token (bytes_key_arg k)) as [t|] eqn:Ht; [|discriminate].
+  destruct (parse_bytes_arg [t]) as [[b [|x y]]|] eqn:Hn; try discriminate. intros E; injection E as <-.
+  exists t, b. repeat split; try assumption.
+  destruct k as [m|b0|s]; cbn in *; try reflexivity.
+  destruct (String.eqb s "//") eqn:Ec; [|reflexivity].
+  apply String.eqb_eq in Ec. subst s. injection Ht as <-. discriminate Hn.
+Qed.
+
+Lemma push_int_op k orig v : key_sval CKInt k = Some v ->
+  exists p', parsed_of (mkI O_pushint (int_key_arg k :: cmt orig)) = Some p' /\
+             forall ib bb, load_value ib bb p' = Some v.
+Proof.
+  intros H. destruct (key_sval_int_inv _ _ H) as (t & n & Hc & Ht & Hn & ->).
+  exists (mkP O_pushint [IInt n]). split; [|reflexivity].
+  unfold ConstantsSpec.parsed_of, cmt. cbn [i_op i_args ConstantsSpec.arg_tokens]. rewrite Hc, Ht.
+  cbn -[parse_int_arg]. now rewrite Hn.
+Qed.
+
+Lemma push_bytes_op k orig v : key_sval CKBytes k = Some v ->
+  exists p', parsed_of (mkI O_pushbytes (bytes_key_arg k :: cmt orig)) = Some p' /\
+             forall ib bb, load_value ib bb p' = Some v.
+Proof.
+  intros H. destruct (key_sval_bytes_inv _ _ H) as (t & b & Hc & Ht & Hn & ->).
+  exists (mkP O_pushbytes [IBytes b]). split; [|reflexivity].
+  unfold ConstantsSpec.parsed_of, cmt. cbn [i_op i_args ConstantsSpec.arg_tokens]. rewrite Hc, Ht.
+  cbn -[parse_bytes_arg]. now rewrite Hn.
+Qed.
+
+(* block lines *)
+Definition int_vals (ks : list ckey) (vals : list N) : Prop :=
+  Forall2 (fun k n => key_sval CKInt k = Some (SVInt n)) ks vals.
+Definition bytes_vals (ks : list ckey) (vals : list bytes) : Prop :=
+  Forall2 (fun k b => key_sval CKBytes k = Some (SVBytes b)) ks vals.
+
+Lemma int_block_tokens ks vals : int_vals ks vals ->
+  exists toks, arg_tokens (map int_key_arg ks) = Some toks /\ parse_int_args toks = Some vals.
+Proof.
+  induction 1 as [|k n ks vals Hk _ IH].
+  - exists []. split; reflexivity.
+  - destruct IH as (toks & Ha & Hp).
+    destruct (key_sval_int_inv _ _ Hk) as (t & n' & Hc & Ht & Hn & E). injection E as <-.
+    exists (t :: toks). cbn [map ConstantsSpec.arg_tokens parse_int_args]. now rewrite Hc, Ht, Ha, Hn, Hp.
+Qed.
+
+Lemma parse_bytes_arg_rest t v rest : parse_bytes_arg [t] = Some (v, []) ->
+  parse_bytes_arg (t :: rest) = Some (v, rest).
+Proof.
+  unfold parse_bytes_arg.
+  destruct (String.eqb t "base64" || String.eqb t "b64"); [discriminate|].
+  destruct (String.eqb t "base32" || String.eqb t "b32"); [discriminate|].
+  assert (G : forall x : option bytes, option_map (fun b => (b, @nil string)) x = Some (v, []) ->
+                                       option_map (fun b => (b, rest)) x = Some (v, rest)).
+  { intros [b|] E; [|discriminate E]. cbn in *. now injection E as ->. }
+  destruct (paren_body "base64" t); [apply G|].
+  destruct (paren_body "b64" t); [apply G|].
+  destruct (paren_body "base32" t); [apply G|].
+  destruct (paren_body "b32" t); [apply G|].
+  destruct (decode_hex0x t); [intros E; now injection E as ->|apply G].
+Qed.
+
+Lemma parse_bytes_args_all toks vals :
+  Forall2 (fun t b => parse_bytes_arg [t] = Some (b, [])) toks vals ->
+  forall fuel, (List.length toks < fuel)%nat -> parse_bytes_args fuel toks = Some vals.
+Proof.
+  induction 1 as [|t b toks vals Ht _ IH]; intros fuel Hf.
+  - destruct fuel; [inversion Hf|reflexivity].
+  - destruct fuel as [|f]; [inversion Hf|]. cbn [parse_bytes_args].
+    rewrite (parse_bytes_arg_rest _ _ toks Ht). rewrite IH by (cbn in Hf; lia). reflexivity.
+Qed.
+
+Lemma bytes_block_tokens ks vals : bytes_vals ks vals ->
+  exists toks, arg_tokens (map bytes_key_arg ks) = Some toks /\
+               Forall2 (fun t b => parse_bytes_arg [t] = Some (b, [])) toks vals.
+Proof.
+  induction 1 as [|k b ks vals Hk _ IH].
+  - exists []. split; [reflexivity|constructor].
+  - destruct IH as (toks & Ha & Hp).
+    destruct (key_sval_bytes_inv _ _ Hk) as (t & b' & Hc & Ht & Hn & E). injection E as <-.
+    exists (t :: toks). cbn [map ConstantsSpec.arg_tokens]. rewrite Hc, Ht, Ha. split; [reflexivity|].
+    constructor; assumption.
+Qed.
+
+Lemma imm_ints_map vals : imm_ints (map IInt vals) = Some vals.
+Proof. induction vals as [|v t IH]; cbn; [reflexivity|]. now rewrite IH. Qed.
+Lemma imm_bytes_map vals : imm_bytes (map IBytes vals) = Some vals.
+Proof. induction vals as [|v t IH]; cbn; [reflexivity|]. now rewrite IH. Qed.
+
+Lemma blocks_after_prologue iks bks ivals bvals :
+  int_vals iks ivals -> bytes_vals bks bvals ->
+  blocks_after sigma msel (block_prologue iks bks) [] [] = Some (ivals, bvals).
+Proof.
+  intros Hi Hb. unfold block_prologue.
+  destruct (int_block_tokens _ _ Hi) as (it & Hia & Hip).
+  destruct (bytes_block_tokens _ _ Hb) as (bt & Hba & Hbp).
+  assert (PI : iks <> [] -> parsed_of (mkI O_intcblock (map int_key_arg iks)) = Some (mkP O_intcblock (map IInt ivals))).
+  { intros _. unfold ConstantsSpec.parsed_of. cbn [i_op i_args]. rewrite Hia. cbn -[parse_int_args]. now rewrite Hip. }
+  assert (PB : parsed_of (mkI O_bytecblock (map bytes_key_arg bks)) = Some (mkP O_bytecblock (map IBytes bvals))).
+  { unfold ConstantsSpec.parsed_of. cbn [i_op i_args]. rewrite Hba. cbn -[parse_bytes_args].
+    rewrite (parse_bytes_args_all _ _ Hbp) by lia. reflexivity. }
+  destruct iks as [|ik iks']; destruct bks as [|bk bks'].
+  - inversion Hi; inversion Hb; subst. reflexivity.
+  - inversion Hi; subst. cbn [app blocks_after]. rewrite PB. cbn [p_op p_imms]. now rewrite imm_bytes_map.
+  - inversion Hb; subst. cbn [app blocks_after]. rewrite PI by discriminate. cbn [p_op p_imms]. now rewrite imm_ints_map.
+  - cbn [app blocks_after]. rewrite PI by discriminate. cbn [p_op p_imms]. rewrite imm_ints_map.
+    cbn [blocks_after]. rewrite PB. cbn [p_op p_imms]. now rewrite imm_bytes_map.
 Qed.
